@@ -65,9 +65,20 @@ def oracle(case, rec):
     ft_ = np.float32 if case.get('dtype', 'f8') == 'f4' else np.float64
     ins = [gens.relayout(f1.astype(ft_), lay), gens.relayout(f2.astype(ft_), lay), gens.relayout(astored.copy(), lay)]   # what the routine gets
     rec.cls('layout=' + lay)
+    ek = list(case.get('ekinds', ['f8', 'f8']))
+    rec.cls('edges-held-as=%s/%s' % tuple(ek))
+
+    def E(e, kind):
+        if kind == 'int-array':
+            return e.astype(np.int64)
+        if kind == 'int-list':
+            return [int(v) for v in e]
+        if kind == 'f4':
+            return e.astype(np.float32)
+        return e.copy()
     for sq in (False, 'sum', 'mean'):
         try:
-            outs[sq] = np.asarray(emd.spectra.holospectrum(ins[0], ins[1], ins[2], e1.copy(), e2.copy(), mode=mode, squash_time=sq))
+            outs[sq] = np.asarray(emd.spectra.holospectrum(ins[0], ins[1], ins[2], E(e1, ek[0]), E(e2, ek[1]), mode=mode, squash_time=sq))
         except Exception as e:
             raise Violation('C11/raises/%s/squash=%s' % (type(e).__name__, sq), repr(e))
     if not all(np.array_equal(x, y) for x, y in zip(ins, (f1.astype(ft_), f2.astype(ft_), astored))):
@@ -122,7 +133,21 @@ def random_case(draw):
         lo = draw(st.sampled_from([0.5, 1.0, 2.0, 0.0, 0, -2.0]))     # zero and negative first edges are valid bin sets
         hi = lo + draw(st.sampled_from([1.0, 10.0, 30.0]))
         e, _ = emd.spectra.define_hist_bins(lo, hi, nb, scale=draw(st.sampled_from(['linear', 'log'])) if lo > 0 else 'linear')
-        return np.asarray(e, dtype=float), lo, hi
+        e = np.asarray(e, dtype=float)
+        kind = draw(st.sampled_from(['f8', 'f8', 'f8', 'int-array', 'int-list', 'f4']))
+        if kind.startswith('int'):          # whole-number edges held as an integer array / a list of ints
+            lo = int(np.floor(lo))
+            e = (lo + draw(st.sampled_from([1, 2, 5])) * np.arange(nb + 1)).astype(float)
+            hi = e[-1]
+        elif kind == 'f4':
+            e32 = e.astype(np.float32).astype(float)
+            if np.all(np.diff(e32) > 0):
+                e = e32
+            else:
+                kind = 'f8'
+        kinds.append(kind)
+        return e, lo, hi
+    kinds = []
     e1, lo1, hi1 = bins()
     e2, lo2, hi2 = bins()
     ps = draw(st.sampled_from([0.0, 0.3, 1.0]))
@@ -136,6 +161,7 @@ def random_case(draw):
             'a2': np.round((rng.random((T, M, K)) - draw(st.sampled_from([0.0, 0.0, 0.0, 0.3, 1.0]))) * 3, 4), 'e1': e1, 'e2': e2,
             'mode': draw(st.sampled_from(['energy', 'amplitude'])), 'layout': draw(st.sampled_from(gens.LAYOUTS)),
             'dtype': draw(st.sampled_from(['f8', 'f8', 'f4'])),
+            'ekinds': kinds,
             'adtype': draw(st.sampled_from(['f8', 'f8', 'f8', 'i8', 'i4', 'i2', 'f4'])),
             'again': draw(st.sampled_from([1.0, 100.0, 9000.0]))}
 
